@@ -185,10 +185,12 @@ def ratFastOp (ty : String) (c : RatConsts) (enc : EncConsts) (num0 : Int) (den0
   | .error k => panic k.name
   | .ok b =>
     let exact := (ieeeRoundRat c.F .halfEven num den).1
-    -- bounded error: truncating the denominator to `prec` bits costs < 2 ulp, the final rounding 1/2
-    -- (the doc comment promises "off by one bit"; two units do occur, e.g. 0x2b5ccdb0d84d565 / 0x7c9b…6b)
+    -- bounded error: truncating the denominator to `prec` bits perturbs the quotient by < 2^-(prec-1) relatively,
+    -- i.e. < 2 units of the result when the quotient has prec+1 bits; its rounding to an integer adds 1/4 and the
+    -- rounding in `encode` 1/2, the correct rounding is within 1/2: at most 3 units apart.  (The doc comment promises
+    -- "off by one bit"; 2 and 3 units do occur, e.g. 0x31b673d9606ff / 0x3202e716bcff15f528505a75a437018bd2bb8.)
     let d := if b ≥ exact then b - exact else exact - b
-    if d ≤ 2 then ok (fbits ty b) else ok (fbits ty b) ++ " !bound-violated correctly-rounded=" ++ fbits ty exact
+    if d ≤ 3 then ok (fbits ty b) else ok (fbits ty b) ++ " !bound-violated correctly-rounded=" ++ fbits ty exact
 
 /-- `TryFrom<RBig> for fNN`: Ok iff exactly representable (SPEC).  The KIND of a refusal follows the
     order of the checks in the code: non-dyadic ⇒ LossOfPrecision; magnitude ≥ 2^(emax+1) ⇒ OutOfBounds;
